@@ -18,11 +18,11 @@ PROPS = {
     "C08": {
         "level": "fault_enumeration",
         "per_process": True,
-        "directed": 168,
+        "directed": 186,
         "det": {"quick": 0, "thorough": 0},
         "watchdog": 90,
         "budget": {"quick": 25, "thorough": 420},
-        "rule": "one evaluation = one history in a fresh OS process: optionally a running instance, then 1-5 load attempts (Start through the loaders / validate / Instance.Restart / SIGUSR1 reload) each with a valid configuration or one of 28 failure kinds (syntax, unknown directive, bad arguments of 17 directives, missing or malformed files, port in use on a second listen address, failing startup / restart callbacks), then a valid configuration. Seeds 0-167 enumerate (running or not) x (3 ways of loading) x (28 failure kinds) exhaustively; the remaining seeds sample longer sequences. distinct = distinct history descriptor; non-trivial = at least one failed attempt",
+        "rule": "one evaluation = one history in a fresh OS process: optionally a running instance, then 1-5 load attempts (Start through the loaders / validate / Instance.Restart / SIGUSR1 reload) each with a valid configuration or one of 31 failure kinds (syntax, unknown directive, bad arguments of 17 directives, missing or malformed files incl. an htpasswd file lacking the named user, port in use on a second listen address, failing startup / restart callbacks), then a valid configuration. Seeds 0-185 enumerate (running or not) x (3 ways of loading) x (31 failure kinds) exhaustively; the remaining seeds sample longer sequences. distinct = distinct history descriptor; non-trivial = at least one failed attempt",
         "nontrivial_steps": 1,
         "real_vs_stub": "real: everything (casket core, httpserver, all directive setups, kernel sockets via loopback, /proc socket table, files in a per-process temp dir, signal handler with simulated signal source); stub: operator, clients (net/http client over loopback), the simcb callback directive used for failing startup/restart callbacks",
         "assumptions": COMMON_ASSUME[:1] + ["no schedule is explored: operations of a history are sequential; hangs are detected by a 20 s real-time watchdog per operation", "listening sockets are read from /proc/self/net/tcp{,6} joined with /proc/self/fd"],
